@@ -58,8 +58,8 @@ def _randomise(wrapper, rs, kind):
                 sub.covar_module.base_kernel.lengthscale = torch.tensor(0.3 + rs.rand(*sub.covar_module.base_kernel.lengthscale.shape))
                 sub.covar_module.outputscale = torch.tensor(0.5 + rs.rand())
                 sub.mean_module.constant.data = torch.tensor(float(rs.randn()))
-    # cached prediction strategies depend on the hyper-parameters: re-set the (same) training data
-    wrapper.update()
+    # NOTE: no update() here - it is called right after the FIRST update and before any prediction, so no prediction strategy is
+    # cached yet; a second update() would hide defects of the first one (seed C15b).
 
 
 def _replay(args):
